@@ -22,40 +22,10 @@ import sys
 import textwrap
 import threading
 
-from .sched import Scheduler, SimTask, SimAbort
+from .sched import Scheduler, SimTask, set_instruction_events
 
 ACTIVE = {"tape": None, "roots": None, "stats": None}
-_TOOL = 3  # sys.monitoring tool id (0-5 are free for tools; 3 is unused by debuggers/profilers/coverage here)
-_tool_ready = [False]
 _body_codes = set()
-_tls = threading.local()
-
-
-def _ensure_tool():
-    if _tool_ready[0]:
-        return
-    mon = sys.monitoring
-    try:
-        mon.use_tool_id(_TOOL, "dsim-prange")
-    except ValueError:
-        pass
-
-    def on_instruction(code, offset):
-        t = getattr(_tls, "task", None)
-        if t is None:
-            return
-        sched = _tls.sched
-        t.steps += 1
-        if t.budget > 0:
-            t.budget -= 1
-            if t.budget == 0:
-                sched.ctrl.release()
-                t.sem.acquire()
-                if sched.aborting:
-                    raise SimAbort()
-
-    mon.register_callback(_TOOL, mon.events.INSTRUCTION, on_instruction)
-    _tool_ready[0] = True
 
 
 class _Outliner(ast.NodeTransformer):
@@ -168,11 +138,9 @@ def parallel_for(n, body, red_names):
         for i in range(n):
             body(i, red)
         return [red]
-    _ensure_tool()
     stats = ACTIVE["stats"]
     code = body.__code__
-    mon = sys.monitoring
-    mon.set_local_events(_TOOL, code, mon.events.INSTRUCTION)
+    set_instruction_events([code], True)
     W = 1 + tape.draw("prange.workers", min(16, n))
     # partition: static contiguous chunks (numba's default) or smaller dynamic chunks dealt round-robin / drawn
     mode = tape.weighted("prange.partition", [(3, "static"), (2, "dynamic")])
@@ -192,13 +160,8 @@ def parallel_for(n, body, red_names):
 
     def make(w):
         def run():
-            _tls.task = tasks[w]
-            _tls.sched = sched
-            try:
-                for i in assign[w]:
-                    body(i, reds[w])
-            finally:
-                _tls.task = None
+            for i in assign[w]:
+                body(i, reds[w])
         return run
 
     tasks = [SimTask(w, f"prange-w{w}", None) for w in range(W)]
@@ -207,7 +170,7 @@ def parallel_for(n, body, red_names):
     try:
         sched.run_graph(tasks, W)
     finally:
-        mon.set_local_events(_TOOL, code, 0)
+        set_instruction_events([code], False)
     if stats is not None:
         st = sched.stats()
         stats["loops"] = stats.get("loops", 0) + 1
